@@ -218,6 +218,66 @@ def lean_ops(case):
     return ops
 
 
+def transforms_for(case):
+    """insertions + the optional DISPLAY transforms of a case (`case["display"]` = {"rows": d, "cols": d}, each d with
+    optional "hide" (element ids), "prune" (bool), "order" (an order dict)); z / p of a cell do not depend on them"""
+    tr = su.transforms_of(case["row_ins"], case["col_ins"])
+    disp = case.get("display") or {}
+    for side, dk in (("rows", "rows_dimension"), ("cols", "columns_dimension")):
+        d = disp.get(side) or {}
+        if d.get("hide"):
+            tr.setdefault(dk, {})["elements"] = {str(i): {"hide": True} for i in d["hide"]}
+        if d.get("prune"):
+            tr.setdefault(dk, {})["prune"] = True
+        if d.get("order"):
+            tr.setdefault(dk, {})["order"] = d["order"]
+    return tr
+
+
+def _shape_ok(m, a, b):
+    if not isinstance(m, list) or len(m) != a:
+        return False
+    return all(isinstance(r_, list) and len(r_) == b for r_ in m)
+
+
+def _display_fault(case, vars_, ro, co, rows, cols, nr, nc):
+    """the displayed signed indexes must name existing rows / columns once each, leave out every hidden element and
+    (without prune) nothing else; returns a message or None"""
+    disp = case.get("display") or {}
+    for nm, order, sides, nbase, v, d in (("rows", ro, rows, nr, vars_[-2], disp.get("rows") or {}),
+                                          ("cols", co, cols, nc, vars_[-1], disp.get("cols") or {})):
+        nins = len(sides) - nbase
+        if any((not isinstance(i, int)) or i >= nbase or i < -nins for i in order) or len(set(order)) != len(order):
+            return "%s order %r out of range / repeated (base %d, inserted %d)" % (nm, order, nbase, nins)
+        ids = su.valid_element_ids(v)
+        hidden = {e for e, i in enumerate(ids) if i in (d.get("hide") or [])}
+        shown = {i for i in order if i >= 0}
+        if shown & hidden:
+            return "%s: hidden elements %r displayed (%r)" % (nm, sorted(shown & hidden), order)
+        if not d.get("prune") and not disp.get("rows", {}).get("prune") and not disp.get("cols", {}).get("prune"):
+            if shown != set(range(nbase)) - hidden or len(order) != len(sides) - len(hidden):
+                return "%s: displayed %r, expected all of %d base + %d inserted but hidden %r" % (
+                    nm, order, nbase, nins, sorted(hidden))
+    return None
+
+
+def _pairing_fault(P, Z, norm):
+    if not isinstance(P, list) or not isinstance(Z, list):
+        return None
+    if len(P) != len(Z) or any(len(a) != len(b) for a, b in zip(P, Z)):
+        return "shapes differ: p %r z %r" % (P, Z)
+    for i, (pr, zr) in enumerate(zip(P, Z)):
+        for j, (p_, z_) in enumerate(zip(pr, zr)):
+            if su.isnan(p_) != su.isnan(z_):
+                return "cell (%d,%d): p=%r z=%r (NaN on one side only)" % (i, j, p_, z_)
+            if su.isnan(z_) or not isinstance(z_, float):
+                continue
+            want = 2.0 * (1.0 - float(norm.cdf(abs(z_))))
+            if not common.num_close(p_, want, rel=1e-9):
+                return "cell (%d,%d): p=%r but 2(1-Phi(|z|))=%r for its z=%r" % (i, j, p_, want, z_)
+    return None
+
+
 def _blockkind(R, C):
     def one(S):
         if not S["inserted"]:
@@ -247,7 +307,10 @@ def evaluate(case, louts, ctx):
     resp = su.scale_response(gen.cube_response(vars_, survey, case["weighted"]), case.get("scale", 1))
     if case.get("scale", 1) > 1:
         ctx.count("large_sample_cases:%s" % ("weighted" if case["weighted"] else "unweighted"))
-    cube = Cube(resp, transforms=su.transforms_of(case["row_ins"], case["col_ins"]))
+    cube = Cube(resp, transforms=transforms_for(case))
+    disp = case.get("display") or {}
+    if disp:
+        ctx.count("display_transform_cases")
     nparts = su.n_partitions(vars_)
     parts = common.call_impl(lambda: len(cube.partitions))
     if parts != nparts:
@@ -264,9 +327,18 @@ def evaluate(case, louts, ctx):
         sl = cube.partitions[k]
         ro = common.call_impl(lambda: sl.row_order().tolist())
         co = common.call_impl(lambda: sl.column_order().tolist())
-        if isinstance(ro, dict) or isinstance(co, dict) or len(ro) != len(rows) or len(co) != len(cols):
+        if isinstance(ro, dict) or isinstance(co, dict):
             findings.append({"kind": "model", "locus": "slice.shape", "detail": "orders %r %r" % (ro, co)})
             continue
+        if not disp and (len(ro) != len(rows) or len(co) != len(cols)):
+            findings.append({"kind": "model", "locus": "slice.shape", "detail": "orders %r %r" % (ro, co)})
+            continue
+        if disp:
+            bad = _display_fault(case, vars_, ro, co, rows, cols, nr, nc)
+            if bad:
+                findings.append({"kind": "model", "locus": "slice.display-order", "detail": "partition %d: %s" % (k, bad)})
+                continue
+            ctx.count("displayed_shape:%s" % "x".join("1" if n_ == 1 else ("0" if n_ == 0 else "n") for n_ in (len(ro), len(co))))
         if model["defective"] != spec["defective"]:
             raise common.HarnessFault("model/spec defective flags differ (python primitives vs lean survey) on %r" % case)
         dfct = spec["defective"]
@@ -283,6 +355,11 @@ def evaluate(case, louts, ctx):
             if isinstance(impl, dict):
                 findings.append({"kind": "spec", "locus": "%s.raises.%s" % (name, tk),
                                  "detail": "partition %d: %s raises %r" % (k, name, impl)})
+                continue
+            if not _shape_ok(impl, len(ro), len(co)):
+                findings.append({"kind": "spec", "locus": "%s.shape.%s" % (name, tk),
+                                 "detail": "partition %d: %s has not the displayed shape %d x %d: %r"
+                                           % (k, name, len(ro), len(co), impl)})
                 continue
             sp = common.model_to_float(su.block_pick(spec[key], ro, co))
             md = common.model_to_float(su.block_pick(model[key], ro, co))
@@ -330,6 +407,14 @@ def evaluate(case, louts, ctx):
             ok, where = common.deep_close(rts, [pv, zs])
             if not ok:
                 findings.append({"kind": "spec", "locus": "residual_test_stats", "detail": "!= [pvals, zscores]%s" % where})
+            # every displayed z pairs with ITS OWN p: p = 2(1 - Phi(|z|)), NaN iff NaN (in both readings of the
+            # accessor pair: pvals / zscores and the two planes of residual_test_stats)
+            for pname, P, Z in (("pvals-vs-zscores", pv, zs),
+                                ("residual_test_stats", rts[0] if len(rts) == 2 else None, rts[1] if len(rts) == 2 else None)):
+                bad = _pairing_fault(P, Z, norm)
+                if bad:
+                    findings.append({"kind": "spec", "locus": "p-z-pairing.%s" % pname,
+                                     "detail": "partition %d (displayed %d x %d): %s" % (k, len(ro), len(co), bad)})
         # 2x2 CAT x CAT: z^2 == Pearson chi-square (directly on the implementation)
         if isinstance(zs, list) and nr == 2 and nc == 2 and tk == "catxcat" and not dfct:
             a, b = cnt[0]
